@@ -12,9 +12,6 @@
 #include <rtosc/automations.h>
 #include <cstdio>
 
-static float P0, P1;
-#define rObject Dummy
-struct Dummy {};
 static const rtosc::Ports ports = {
     {"p0::f", ":min\0=0\0:max\0=1\0", 0, [](const char *, rtosc::RtData &) {}},
     {"p1::f", ":min\0=0\0:max\0=1\0", 0, [](const char *, rtosc::RtData &) {}},
